@@ -83,6 +83,12 @@ def handleCbor (op : String) (args : List String) : Option String :=
     match err with
     | some e => some s!"err {errName e}"
     | none => some s!"ok {toHex bs}"
+  | "cbor.enc.cont", cnt :: toks => do
+    -- all calls on one encoder, refused calls included: a refused call contributes nothing to the stream
+    let n ← cnt.toNat?
+    let (bs, err, rest) ← runCalls n toks [] none
+    if !rest.isEmpty then none else
+    some s!"ok {toHex bs} {match err with | some e => "first-err-" ++ errName e | none => "noerr"}"
   | "cbor.encdet", cnt :: toks => do
     let n ← cnt.toNat?
     let (bs, err, rest) ← runCalls n toks [] none
